@@ -12,6 +12,10 @@ use corgi::numbers::Float;
 pub enum Step {
     /// backward(seed) on node `i` of the program (nodes as returned by Program::run)
     Back(usize),
+    /// backward with a concrete all-zero seed
+    BackZero(usize),
+    /// backward(None) (concrete all-ones seed)
+    BackNone(usize),
     /// leaf i: `replace_gradient()`
     Replace(usize),
     /// leaf i: `*gradient_mut() = None`
@@ -35,9 +39,14 @@ pub fn history<P: Program, S: Source>(s: &mut S, p: &P, leaves: &[Leaf], steps: 
     let mut has: Vec<bool> = vec![false; leaves.len()];
     for st in steps {
         match *st {
-            Step::Back(i) => {
+            Step::Back(i) | Step::BackZero(i) | Step::BackNone(i) => {
                 let node = live[i].as_ref().unwrap();
-                let (arg, seedv) = draw_seed(s, node, Seed::Explicit(Dom::D4));
+                let kind = match *st {
+                    Step::BackZero(_) => Seed::Explicit(Dom::Zero),
+                    Step::BackNone(_) => Seed::Omitted,
+                    _ => Seed::Explicit(Dom::D4),
+                };
+                let (arg, seedv) = draw_seed(s, node, kind);
                 node.backward(arg);
                 let g = refmodel::vjp_all(&rnodes[i], &seedv);
                 // which leaves does node i reach through tracked paths?
